@@ -169,7 +169,7 @@ def _():
     invariant(is_obj(self.addr))
     invariant(core(self))
     invariant(ping_untouched(self))
-    invariant(queue == Q(self))
+    invariant(Q(self) == old(Q(self)))      # (local-free: the code's `queue` was read from it before the loop)
     invariant(alarms_cleared(S(self)) and alarms_cleared(U(self)) and alarms_cleared(W(self)) and alarms_cleared(R(self)))
     invariant(all_failed(S(self), reason) and all_failed(U(self), reason) and all_failed(W(self), reason) and all_failed(R(self), reason))
     invariant(dq_tail(Q(self)) == old(dq_tail(Q(self))) and old(dq_head(Q(self))) <= dq_head(Q(self)) and dq_head(Q(self)) <= dq_tail(Q(self)))
